@@ -1,5 +1,7 @@
 //! d_evm: transplanted ant-evm/src/amount.rs over a symbolic 256-bit `Amount`.
 #![allow(dead_code, unused_imports, unused_variables)]
+// path-qualified uses (`tracing::warn!(..)`) in transplanted code resolve to no-op macros
+extern crate noop_tracing as tracing;
 pub mod shim;
 pub use shim::{EvmError, Result};
 #[path = "gen/amount.rs"]
